@@ -1847,5 +1847,48 @@ fn main() {
         rect_first_float::<D3, f64, 3>(s, "f64:inexact", th); rect_first_float::<D3, f32, 3>(s, "f32:inexact", th);
         rect_first_u8::<D2, 2>(s, "u8:edges"); rect_first_u8::<D3, 3>(s, "u8:edges");
     });
+    rep.section("unordered and infinite lanes: contains_point is the conjunction of min <= p and p <= max on every axis",
+        "f64 and f32; 2-D: every Aabr whose 4 bound lanes come from {-1, 0, 2, -inf, +inf, NaN} x every point over {-2, -1, 0.5, 2, 3, -inf, +inf, NaN}^2; 3-D: every Aabb with lanes from {0, 2, +inf, NaN} x points over {-1, 1, 2, +inf, NaN}^3; also Rect / Rect3 (position lanes {-1, 0, NaN}, extents {0, 2, +inf, NaN}) against the interval [position, position + extent] formed in the element type. Oracle: the IEEE comparisons of the definition, so a NaN lane in the point or in a bound is in no interval (a rewrite through negated strict comparisons is not equivalent on a partial order), while +-inf lanes behave as ordinary extended reals; non-trivial: some lane is NaN",
+        true, false, |s| {
+        s.require_classes(&["nan-lane:point", "nan-lane:bound", "no-nan:inside", "no-nan:outside", "infinite-lane"]);
+        macro_rules! nanpts { ($T:ty, $tn:expr) => {{
+            let (inf, nan) = (<$T>::INFINITY, <$T>::NAN);
+            let b2: [$T; 6] = [-1.0, 0.0, 2.0, -inf, inf, nan]; let p2: [$T; 8] = [-2.0, -1.0, 0.5, 2.0, 3.0, -inf, inf, nan];
+            let inn = |lo: $T, p: $T, hi: $T| lo <= p && p <= hi;
+            let cls = |s: &Section, bn: bool, pn: bool, anyinf: bool, want: bool| { if pn { s.class("nan-lane:point"); } if bn { s.class("nan-lane:bound"); } if !pn && !bn { s.class(if want { "no-nan:inside" } else { "no-nan:outside" }); } if anyinf { s.class("infinite-lane"); } };
+            for &x0 in &b2 { for &y0 in &b2 { for &x1 in &b2 { for &y1 in &b2 { for &px in &p2 { for &py in &p2 {
+                let want = inn(x0, px, x1) && inn(y0, py, y1);
+                let (bn, pn) = (x0.is_nan() || y0.is_nan() || x1.is_nan() || y1.is_nan(), px.is_nan() || py.is_nan());
+                s.eval(bn || pn); cls(s, bn, pn, [x0, y0, x1, y1, px, py].iter().any(|v| v.is_infinite()), want);
+                let got = Aabr { min: Vec2 { x: x0, y: y0 }, max: Vec2 { x: x1, y: y1 } }.contains_point(Vec2 { x: px, y: py });
+                if got != want { s.violation_w(&format!("Aabr<{}>::contains_point", $tn), "not-closed-interval-membership-on-unordered-or-infinite-lanes", json!({"min": format!("{:?}", (x0, y0)), "max": format!("{:?}", (x1, y1)), "point": format!("{:?}", (px, py)), "got": got, "want": want}), (bn as u64) * 4 + (pn as u64) * 2 + 1); }
+            }}}}}}
+            let b3: [$T; 4] = [0.0, 2.0, inf, nan]; let p3: [$T; 5] = [-1.0, 1.0, 2.0, inf, nan];
+            for &x0 in &b3 { for &y0 in &b3 { for &z0 in &b3 { for &x1 in &b3 { for &y1 in &b3 { for &z1 in &b3 { for &px in &p3 { for &py in &p3 { for &pz in &p3 {
+                let want = inn(x0, px, x1) && inn(y0, py, y1) && inn(z0, pz, z1);
+                let (bn, pn) = ([x0, y0, z0, x1, y1, z1].iter().any(|v| v.is_nan()), [px, py, pz].iter().any(|v| v.is_nan()));
+                s.eval(bn || pn); cls(s, bn, pn, [x0, y0, z0, x1, y1, z1, px, py, pz].iter().any(|v| v.is_infinite()), want);
+                let got = Aabb { min: Vec3 { x: x0, y: y0, z: z0 }, max: Vec3 { x: x1, y: y1, z: z1 } }.contains_point(Vec3 { x: px, y: py, z: pz });
+                if got != want { s.violation_w(&format!("Aabb<{}>::contains_point", $tn), "not-closed-interval-membership-on-unordered-or-infinite-lanes", json!({"min": format!("{:?}", (x0, y0, z0)), "max": format!("{:?}", (x1, y1, z1)), "point": format!("{:?}", (px, py, pz)), "got": got, "want": want}), (bn as u64) * 4 + (pn as u64) * 2 + 1); }
+            }}}}}}}}}
+            let rp: [$T; 3] = [-1.0, 0.0, nan]; let re: [$T; 4] = [0.0, 2.0, inf, nan];
+            for &x in &rp { for &y in &rp { for &w in &re { for &h in &re { for &px in &p2 { for &py in &p2 {
+                let want = inn(x, px, x + w) && inn(y, py, y + h);
+                let (bn, pn) = (x.is_nan() || y.is_nan() || w.is_nan() || h.is_nan(), px.is_nan() || py.is_nan());
+                s.eval(bn || pn); cls(s, bn, pn, [w, h, px, py].iter().any(|v| v.is_infinite()), want);
+                let got = Rect { x, y, w, h }.contains_point(Vec2 { x: px, y: py });
+                if got != want { s.violation_w(&format!("Rect<{},{}>::contains_point", $tn, $tn), "not-closed-interval-membership-on-unordered-or-infinite-lanes", json!({"rect": format!("{:?}", (x, y, w, h)), "point": format!("{:?}", (px, py)), "got": got, "want": want}), (bn as u64) * 4 + (pn as u64) * 2 + 1); }
+                for &z in &[0.0 as $T, nan] { for &d in &[2.0 as $T, nan] { for &pz in &[1.0 as $T, 3.0, nan] {
+                    let want3 = want && inn(z, pz, z + d);
+                    let (bn3, pn3) = (bn || z.is_nan() || d.is_nan(), pn || pz.is_nan());
+                    s.eval(bn3 || pn3); cls(s, bn3, pn3, false, want3);
+                    let got3 = Rect3 { x, y, z, w, h, d }.contains_point(Vec3 { x: px, y: py, z: pz });
+                    if got3 != want3 { s.violation_w(&format!("Rect3<{},{}>::contains_point", $tn, $tn), "not-closed-interval-membership-on-unordered-or-infinite-lanes", json!({"rect3": format!("{:?}", (x, y, z, w, h, d)), "point": format!("{:?}", (px, py, pz)), "got": got3, "want": want3}), (bn3 as u64) * 4 + (pn3 as u64) * 2 + 1); }
+                }}}
+            }}}}}}
+        }} }
+        nanpts!(f64, "f64"); nanpts!(f32, "f32");
+        s.sample(json!({"box": "Aabr { min: (0, 0), max: (2, 2) }", "point": "(1, NaN)", "contains_point": Aabr { min: Vec2 { x: 0.0f64, y: 0.0 }, max: Vec2 { x: 2.0, y: 2.0 } }.contains_point(Vec2 { x: 1.0, y: f64::NAN }), "want": false}));
+    });
     std::process::exit(rep.finish());
 }
